@@ -24,4 +24,20 @@ META = {
         "exhaustive_note": "thorough tier enumerates the two-variable grid completely (counter grid2_cases)",
         "soft_s": {"quick": 200, "thorough": 3000},
     },
+    "C03": {
+        "level": "exploration",
+        "rule": ("cases = pairs of constraint lists (families: unrelated, weakenings, Farkas combinations, boundary, "
+                 "separated, reflexive, sub-list, unbounded, empty left/right, near-boundary), pairs of contracts over a "
+                 "common or a different interface, and environment/implementation membership queries; every "
+                 "PolyhedralTermList.refines event (direct or nested) is classified by exact containment into "
+                 "must-True / must-False / band and the answer compared; must-True is asserted on small-integer / "
+                 "dyadic data only. Non-trivial = a refinement test was actually evaluated; distinct = case digests."),
+        "required": ["events:PTL.refines", "events:IoContract.refines", "events:contains_env", "events:contains_impl",
+                     "list:T:Lfeasible", "list:F:Lfeasible", "list:T:Lempty", "contract:different-interfaces",
+                     "contract:weaker:T", "contract:under_assumptions:T", "contract:unrelated:F", "env:T", "env:F",
+                     "impl:T", "impl:F"],
+        "assumptions": [NUM, TB, "thinly infeasible left sides (infeasible, but feasible after relaxing by 1e-3) are "
+                        "treated as band"],
+        "soft_s": {"quick": 200, "thorough": 3000},
+    },
 }
